@@ -194,6 +194,13 @@ def dict_builder_entries(cx: Cx, fn: FunctionInfo, table: str, ob_id: str) -> li
         if ctx.loops:
             raise AnalysisError(f"{fn.qualname} returns from inside a loop", ob_id)
         if op(t) == "new" and t[1] in ("dict", "defaultdict"):
+            init = t[4] if len(t) > 4 else None
+            if op(init) == "dict":
+                for k, v in init[1]:
+                    if k is None:
+                        raise AnalysisError(f"dict splat in builder {fn.qualname}", ob_id)
+                    kf = prov.fields(k)
+                    out.append(Entry(table, frozenset(f for r, f in kf if r != "?"), any(r == "?" for r, _ in kf), v, _value_field(prov, v), (), where(fn, t[3]), fn.qualname, t[3], prov.record_of(k)))
             for ev, ectx in s.mutations_of(t):
                 if ev.kind == "store" and op(ev.a) == "item" and ev.a[1] == t:
                     k, v = ev.a[2], ev.b
@@ -595,3 +602,121 @@ def state_closure(cx: Cx, ob: Ob) -> None:
                     ob.violate(fn.qualname, where(fn, ev.line), f"{fn.name} writes lookup table .{base[2]} of a converter from outside the class", detail=f"foreign-write:{base[2]}")
                 if op(t) == "attr" and t[2] in TABLES and op(base) != "const":
                     ob.violate(fn.qualname, where(fn, ev.line), f"{fn.name} rebinds lookup table .{t[2]} of a converter from outside the class", detail=f"foreign-write:{t[2]}")
+
+
+# ---------------------------------------------------------------------- list builders
+def list_segments(s: Summary, t, prov: Prov, depth: int = 0) -> list | None:
+    """Normal form of a list-valued term: [('elem', term, conds) | ('each', iterable, elt, conds)].
+
+    Loop+append builders, list displays with splices and comprehensions reduce to the same form.
+    Returns None when the construction is not recognised.
+    """
+    if depth > 4:
+        return None
+    o = op(t)
+    if o == "list" or o == "tuple":
+        out = []
+        for e in t[1]:
+            if op(e) == "star":
+                sub = list_segments(s, e[1], prov, depth + 1)
+                out.extend(sub if sub is not None else [("each", e[1], ("it",), ())])
+            else:
+                out.append(("elem", e, ()))
+        return out
+    if o == "comp" and t[1] in ("list", "gen") and len(t[3]) == 1:
+        tgt, it, ifs = t[3][0]
+        prov.add_binding(tgt, it)
+        conds = tuple((c, True) for c in ifs)
+        from .terms import substitute
+
+        if op(it) in ("list", "tuple"):
+            out = []
+            for e in it[1]:
+                if op(e) == "star":
+                    out.append(("each", e[1], substitute(t[2], {tgt: ("it",)}), _subst_conds(conds, tgt)))
+                elif op(tgt) == "bv":
+                    out.append(("elem", substitute(t[2], {tgt: e}), tuple((substitute(c, {tgt: e}), p) for c, p in conds)))
+                else:
+                    return None
+            return out
+        return [("each", it, substitute(t[2], {tgt: ("it",)}) if op(tgt) == "bv" else t[2], _subst_conds(conds, tgt) if op(tgt) == "bv" else conds)]
+    if o == "new" and t[1] == "list":
+        init = t[4] if len(t) > 4 else None
+        out = []
+        if op(init) == "list":
+            sub = list_segments(s, init, prov, depth + 1)
+            if sub is None:
+                return None
+            out.extend(sub)
+        from .terms import substitute
+
+        base: set = set()
+        for ev0, _ in s.walk():
+            if ev0.kind == "bind" and ev0.b == t:
+                base = set(s.must_guards(ev0))
+                break
+        for ev, ctx in _dedupe(s.mutations_of(t)):
+            if ev.kind != "expr" or op(ev.a) != "call":
+                return None
+            name = callee_name(ev.a)
+            args = ev.a[2]
+            conds = tuple(c for c in s.must_guards(ev) if c not in base)
+            if name == "append" and len(args) == 1:
+                if ctx.loops:
+                    if len(ctx.loops) != 1 or ctx.loops[0].kind != "loop":
+                        return None
+                    lp = ctx.loops[0]
+                    elt = substitute(args[0], {lp.a: ("it",)}) if op(lp.a) == "bv" else args[0]
+                    out.append(("each", lp.b, elt, _subst_conds(conds, lp.a) if op(lp.a) == "bv" else conds))
+                else:
+                    out.append(("elem", args[0], conds))
+            elif name == "extend" and len(args) == 1 and not ctx.loops:
+                sub = list_segments(s, args[0], prov, depth + 1)
+                if sub is None:
+                    out.append(("each", args[0], ("it",), conds))
+                else:
+                    out.extend((k, a, b, c + conds) if k == "each" else (k, a, b + conds) for k, a, b, *c in [x if len(x) == 4 else (*x, ()) for x in sub])
+            else:
+                return None
+        return out
+    return None
+
+
+def _subst_conds(conds, tgt):
+    from .terms import substitute
+
+    return tuple((substitute(c, {tgt: ("it",)}), p) for c, p in conds)
+
+
+def _dedupe(evs):
+    seen = set()
+    out = []
+    for ev, ctx in evs:
+        k = (ev.line, ev.kind, ev.a if isinstance(ev.a, tuple) else None)
+        if k in seen:
+            continue
+        seen.add(k)
+        out.append((ev, ctx))
+    return sorted(out, key=lambda x: x[0].line)
+
+
+def cmp_cover(prov: Prov, cond, probe) -> set:
+    """Record fields that ``cond`` compares (==, in) against the term ``probe``."""
+    out = set()
+    for c in subterms(cond):
+        if op(c) != "cmp":
+            continue
+        o, a, b = c[1], c[2], c[3]
+        if o in ("==", "!="):
+            other = b if a == probe else a if b == probe else None
+            if other is not None:
+                out |= prov.fields(other)
+        elif o in ("in", "not in") and a == probe:
+            for alt in prov.elems(b):
+                if op(alt) == "attr" and alt[2] in CANON:
+                    out.add((alt[1], alt[2]))
+                elif op(alt) == "elemof" and op(alt[1]) == "attr" and alt[1][2] in LISTS:
+                    out.add((alt[1][1], alt[1][2]))
+                else:
+                    out.add(("?", alt))
+    return out
